@@ -35,6 +35,7 @@ class State:
         self.werr_limit = None
         self.werr_path = None
         self.werr_kind = None
+        self.werr_close = False
         self.crash_wlimit = None
         self.err_at = None
         self.err_no = None
@@ -128,7 +129,7 @@ def _mutating(kind, path, extra=None):
             # the disk fills up / fails WHILE this file is written: the open succeeds, a write fails after `limit` units
             ST.err_at = None
             ST.werr_path = path
-            ST.werr_kind = 'oserror'
+            ST.werr_kind = 'close' if ST.werr_close else 'oserror'
             ST.fs.append([kind, rel])
             ST.last_wopen = rel
             return
@@ -201,14 +202,30 @@ def _hook(event, args):
 
 
 class _WErrFile:
-    """file object whose writes fail once `limit` units (bytes / characters) were written: a short write, then the error"""
+    """file object whose writes fail once `limit` units (bytes / characters) were written: a short write, then the error.
+    kind 'oserror': the failing write raises OSError; 'interrupt': it raises KeyboardInterrupt (signal inside a write);
+    'close': nothing reaches the disk before the file is flushed or closed (everything sits in the buffer), the flush/close
+    then writes `limit` units and raises OSError - and a file that is never closed explicitly loses the rest silently when
+    it is finalised, exactly like CPython's implicit close, which swallows the error."""
 
     def __init__(self, f, limit, err_no, path, rel, kind='oserror'):
-        self.__dict__.update(_f=f, _limit=limit, _written=0, _err_no=err_no, _path=path, _rel=rel, _failed=False, _kind=kind)
+        self.__dict__.update(_f=f, _limit=limit, _written=0, _err_no=err_no, _path=path, _rel=rel, _failed=False, _kind=kind,
+                             _buf=[], _closed=False)
+
+    def _fail(self):
+        d = self.__dict__
+        if not d['_failed']:
+            d['_failed'] = True
+            ST.fired.append(['diskerr', 'write' if d['_kind'] != 'close' else 'close', d['_rel']])
+            ST.fs.append(['!write', d['_rel']])
+        raise OSError(d['_err_no'], os.strerror(d['_err_no']), d['_path'])
 
     def write(self, data):
         d = self.__dict__
         n = len(data)
+        if d['_kind'] == 'close':
+            d['_buf'].append(data)
+            return n
         room = d['_limit'] - d['_written']
         if n > room:
             if room > 0:
@@ -222,13 +239,63 @@ class _WErrFile:
                 if ST.interrupted is None:
                     ST.interrupted = {'crash': True, 'at': ['write', d['_rel'], 'interrupt'], 'last_wopen': None}
                 raise KeyboardInterrupt('injected interrupt inside write')
-            if not d['_failed']:
-                d['_failed'] = True
-                ST.fired.append(['diskerr', 'write', d['_rel']])
-                ST.fs.append(['!write', d['_rel']])
-            raise OSError(d['_err_no'], os.strerror(d['_err_no']), d['_path'])
+            self._fail()
         d['_written'] += n
         return d['_f'].write(data)
+
+    def _drain(self, explicit):
+        """buffered data goes to the disk: all of it if it fits, else the first `limit` units and (explicit flush/close) the error"""
+        d = self.__dict__
+        buf, d['_buf'] = d['_buf'], []
+        if not buf:
+            return
+        total = sum(len(b) for b in buf)
+        data = buf[0][:0].join(buf)
+        if d['_written'] + total <= d['_limit']:
+            d['_f'].write(data)
+            d['_written'] += total
+            return
+        room = max(0, d['_limit'] - d['_written'])
+        if room:
+            d['_f'].write(data[:room])
+        d['_written'] = d['_limit']
+        if explicit:
+            try:
+                d['_f'].flush()
+            except Exception:
+                pass
+            self._fail()
+        elif not d['_failed']:
+            d['_failed'] = True
+            ST.fired.append(['diskerr', 'close', d['_rel']])
+            ST.fs.append(['!write', d['_rel']])
+
+    def flush(self):
+        d = self.__dict__
+        if d['_kind'] == 'close':
+            self._drain(True)
+        return d['_f'].flush()
+
+    def close(self):
+        d = self.__dict__
+        if d['_kind'] == 'close' and not d['_closed']:
+            d['_closed'] = True
+            try:
+                self._drain(True)
+            finally:
+                d['_f'].close()
+            return None
+        return d['_f'].close()
+
+    def __del__(self):
+        d = self.__dict__
+        try:
+            if d.get('_kind') == 'close' and not d.get('_closed'):
+                d['_closed'] = True
+                self._drain(False)
+                d['_f'].close()
+        except Exception:
+            pass
 
     def writelines(self, lines):
         for ln in lines:
@@ -241,7 +308,7 @@ class _WErrFile:
         return self
 
     def __exit__(self, *a):
-        self.__dict__['_f'].close()
+        self.close()
         return False
 
     def __iter__(self):
@@ -260,7 +327,7 @@ def install_open_seam():
                 ST.werr_path = None
                 if ST.werr_kind == 'interrupt':
                     return _WErrFile(f, ST.crash_wlimit, None, p, p[len(ST.store):], 'interrupt')
-                return _WErrFile(f, ST.werr_limit, ST.err_no, p, p[len(ST.store):])
+                return _WErrFile(f, ST.werr_limit, ST.err_no, p, p[len(ST.store):], ST.werr_kind)
         return f
     builtins.open = _open
     io.open = _open
@@ -1187,6 +1254,7 @@ def run_process(job, out_fd):
         ST.rerr_at = e['k'] if e and e.get('read') else None
         ST.err_no = getattr(errno, e['errno']) if e else None
         ST.werr_limit = e.get('wlimit') if e else None
+        ST.werr_close = bool(e and e.get('at_close'))
         ST.werr_path = None
         clock0 = ST.clock.base + ST.clock.ticks
         ST.active = True
